@@ -1,7 +1,7 @@
 open Gpu
 open Vio
 (* case:  gpu <seq|par> <ngpu> <cap> <ndata> <delay> <batch> <cpu_direct> | task ; task ; ...
-   task:  c | g<k>   then  <datum><r|w|x>[p] ...
+   task:  c | g<k>   then  <datum><r|w|x>[p][@<successor ranks>] ...
    seq mode: the extracted model of the device layer (GPUDefs.grun), printed like harness/h_gpu.c
    ptg mode: the same with PTG-like forwarding of the writer's output copy (GPUDefs.prun)
    par mode: the sequential reference (GPUDefs.ref_run) *)
@@ -15,14 +15,19 @@ let parse_task ngpu s =
         let g = int_of_string (String.sub pl 1 (String.length pl - 1)) in
         if g < 0 || g >= ngpu then failwith "dev"; g + 1 end
       else failwith "place" in
+    let succ_of a =
+      (match String.index_opt a '@' with
+       | None -> []
+       | Some k -> List.init (String.length a - k - 1) (fun j -> nat_of_int (Char.code a.[k + 1 + j] - 48))) in
     let acc a =
+      let a = (match String.index_opt a '@' with None -> a | Some k -> String.sub a 0 k) in
       let n = String.length a in
       let po = n > 0 && a.[n - 1] = 'p' in
       let a = if po then String.sub a 0 (n - 1) else a in
       let n = String.length a in
       let m = match a.[n - 1] with 'r' -> MR | 'w' -> MW | 'x' -> MX | _ -> failwith "mode" in
       { fd = nat_of_int (int_of_string (String.sub a 0 (n - 1))); fm = m; fpo = po } in
-    { place = nat_of_int place; flows = List.map acc accs }
+    ({ place = nat_of_int place; flows = List.map acc accs }, List.map succ_of accs)
 let pval z = let v = int_of_z z in if v = -11111 then "P" else string_of_int v
 let st_str = function INVALID -> "I" | OWNED -> "O" | EXCLUSIVE -> "E" | SHARED -> "S"
 let copy_str i (c : copy option) v =
@@ -63,11 +68,12 @@ let () =
       (match words hd with
        | ["gpu"; mode; ngpu; cap; nd; _delay; _batch; direct] ->
          let ngpu = int_of_string ngpu and cap = int_of_string cap and nd = int_of_string nd in
-         let tasks = List.map (parse_task ngpu) (List.filter (fun s -> s <> "") (split_on ';' body)) in
+         let tasks_s = List.map (parse_task ngpu) (List.filter (fun s -> s <> "") (split_on ';' body)) in
+         let tasks = List.map fst tasks_s in
          let nt = List.length tasks in
          if mode = "seq" || mode = "ptg" then begin
            let (trs, ok) = if mode = "seq" then grun (nat_of_int nd) (nat_of_int 2) (nat_of_int cap) (direct = "1") tasks
-                           else prun (nat_of_int nd) (nat_of_int 2) (nat_of_int cap) tasks in
+                           else prun_s (nat_of_int nd) (nat_of_int 2) (nat_of_int cap) tasks_s in
            let b = Buffer.create 1024 in
            List.iteri (fun i (tr : tres) ->
              let t = List.nth tasks i in
